@@ -2,6 +2,8 @@
 MODULES = [
     'contracts.c18_points',
     'contracts.c16_integer',
+    'contracts.c16_init',
+    'contracts.c16_replay',
 ]
 
 EXTRA_CHECKS = {}
